@@ -88,6 +88,8 @@ func Load(cfg Config) (*Prog, error) {
 	if target == nil {
 		return nil, fmt.Errorf("unresolved-anchor: no package declaring Schema and Resolved among %d packages", len(pkgs))
 	}
+	names = matchNames(target.Types)
+	curPkg = target.Types
 	prog, _ := ssautil.AllPackages(pkgs, ssa.InstantiateGenerics)
 	prog.Build()
 	p := &Prog{Cfg: cfg, Fset: target.Fset, Pkg: target, Types: target.Types, Info: target.TypesInfo, SSA: prog, NPkgs: len(pkgs)}
@@ -105,6 +107,7 @@ func Load(cfg Config) (*Prog, error) {
 		}
 	}
 	sort.Slice(p.Funcs, func(i, j int) bool { return p.Funcs[i].String() < p.Funcs[j].String() })
+	matchFuncs(p)
 	p.CHA = cha.CallGraph(prog)
 	p.VTA = vta.CallGraph(p.allFns, p.CHA)
 	return p, nil
@@ -177,16 +180,19 @@ func FuncName(fn *ssa.Function) string {
 			n = nt.Obj().Name()
 		}
 		if ptr != "" {
-			return "(*" + n + ")." + fn.Name()
+			return CanonFunc("(*" + n + ")." + fn.Name())
 		}
-		return n + "." + fn.Name()
+		return CanonFunc(n + "." + fn.Name())
+	}
+	if fn.Pkg != nil || fn.Origin() != nil {
+		return CanonFunc(fn.Name())
 	}
 	return fn.Name()
 }
 
 // Named returns the named type declared in the package.
 func (p *Prog) Named(name string) *types.Named {
-	obj := p.Types.Scope().Lookup(name)
+	obj := p.Types.Scope().Lookup(CurType(name))
 	if obj == nil {
 		return nil
 	}
@@ -210,6 +216,7 @@ func (p *Prog) Field(typ, field string) *types.Var {
 	if s == nil {
 		return nil
 	}
+	_, field = CurField(typ, field)
 	for i := 0; i < s.NumFields(); i++ {
 		if s.Field(i).Name() == field {
 			return s.Field(i)
@@ -469,6 +476,12 @@ func (p *Prog) MethodOf(typ, method string) *ssa.Function {
 	nt := p.Named(typ)
 	if nt == nil {
 		return nil
+	}
+	// the method may have been renamed: translate the canonical name
+	for _, form := range []string{"(*" + typ + ")." + method, typ + "." + method} {
+		if cur := CurFunc(form); cur != form {
+			method = cur[strings.LastIndex(cur, ".")+1:]
+		}
 	}
 	for _, t := range []types.Type{nt, types.NewPointer(nt)} {
 		if sel := p.SSA.MethodSets.MethodSet(t).Lookup(p.Types, method); sel != nil {
